@@ -134,7 +134,23 @@ pub fn settings(g: &mut G, doc: &Value, rich: bool) -> Settings {
         let scalar_only = scalars_only(&doc["definitions"][&d]);
         s.patch.insert(
             name.clone(),
-            Patch { rename: if g.chance(2, 3) { Some(format!("Renamed{}", name)) } else { None }, derives: if scalar_only && !s.derives.contains(&"PartialEq".to_string()) && g.chance(1, 2) { vec!["PartialEq".into()] } else { vec![] } },
+            Patch {
+                rename: if g.chance(2, 3) { Some(format!("Renamed{}", name)) } else { None },
+                derives: if s.derives.contains(&"PartialEq".to_string()) {
+                    // naming a derive again that the type gets anyway (settings-wide, or built in) is harmless
+                    match g.below(3) {
+                        0 => vec!["PartialEq".into()],
+                        1 => vec!["Clone".into(), "Debug".into()],
+                        _ => vec![],
+                    }
+                } else if scalar_only && g.chance(1, 2) {
+                    vec!["PartialEq".into()]
+                } else if g.chance(1, 4) {
+                    vec!["Debug".into()]
+                } else {
+                    vec![]
+                },
+            },
         );
     }
     if !defs.is_empty() && g.chance(1, 6) {
@@ -155,6 +171,50 @@ pub fn settings(g: &mut G, doc: &Value, rich: bool) -> Settings {
         s.convert.push(Convert { schema, ty: format!("crate::prelude::Mark{}", g.below(8)), impls });
     }
     s
+}
+
+/// Are these settings ones `settings()` can produce for some document with these definitions?
+/// (Keeps shrunk cases inside the domain: a mangled derive name, marker path or module name
+/// is a user error, not a finding.)
+pub fn settings_in_domain(s: &Settings, all_defs: &Value) -> bool {
+    let marker = |t: &str| t.strip_prefix("crate::prelude::Mark").map(|n| n.len() == 1 && n.chars().all(|c| ('0'..='7').contains(&c))).unwrap_or(false);
+    let impls_ok = |v: &Vec<String>| v.iter().all(|i| matches!(i.as_str(), "FromStr" | "Display" | "Default"));
+    if !s.derives.iter().all(|d| d == "PartialEq") || s.derives.len() > 1 {
+        return false;
+    }
+    if !s.type_mod.as_deref().map(|t| t == "types" || t == "tm").unwrap_or(true) {
+        return false;
+    }
+    if !s.map_type.as_deref().map(|m| MAP_TYPES.contains(&m)).unwrap_or(true) {
+        return false;
+    }
+    let global_eq = s.derives.iter().any(|d| d == "PartialEq");
+    for (name, p) in &s.patch {
+        if !p.rename.as_deref().map(|r| r == format!("Renamed{name}")).unwrap_or(true) {
+            return false;
+        }
+        if !p.derives.iter().all(|d| matches!(d.as_str(), "PartialEq" | "Clone" | "Debug")) {
+            return false;
+        }
+        if p.derives.iter().any(|d| d == "PartialEq") && !global_eq {
+            // only on a definition built from scalars
+            let ok = all_defs.as_object().map(|o| o.iter().any(|(k, v)| &crate::gen::names::sanitize_like(k, true) == name && scalars_only(v))).unwrap_or(false);
+            if !ok {
+                return false;
+            }
+        }
+    }
+    s.replace.values().all(|r| marker(&r.ty) && impls_ok(&r.impls))
+        && s.convert.iter().all(|c| marker(&c.ty) && impls_ok(&c.impls) && matches!(c.schema.to_string().as_str(), "{\"type\":\"string\"}" | "{\"type\":\"integer\"}" | "{\"type\":\"boolean\"}"))
+        && s.crates.is_empty()
+        && s.unknown_crates.is_none()
+}
+
+/// `settings_in_domain` for a case with an ingestion history.
+pub fn case_settings_in_domain(case_v: &Value) -> bool {
+    let Ok(case) = parse_case(case_v) else { return false };
+    let doc = history_document(&case);
+    settings_in_domain(&case.settings, &doc["definitions"])
 }
 
 /// Express a root document as one of the equivalent ingestion histories.
